@@ -211,6 +211,55 @@ def aliasing_cases(rng, k):
                 bad.append(f"{name}: a later call gives {later} after an earlier result was edited in place (before: {d0})")
     return bad
 
+# ---- strings made by the OTHER constructors (text together with a larger length, the factory with n, create_instance), and
+# traversals that stop early before the next traversal: every observation equals that of a string freshly built from the text
+def ctor_handle(line):
+    from paulie.common.pauli_string_factory import get_pauli_string
+    try:
+        _, kind, n, t, q = line.split(" ")
+        n = int(n); t = "" if t == "-" else t; q = "" if q == "-" else q
+        exp = t + "I" * (n - len(t))
+        if kind == "ctor": p = PauliString(n=n, pauli_str=t)
+        elif kind == "factory": p = get_pauli_string(t, n=n)
+        elif kind == "instance": p = PauliString(pauli_str="X").create_instance(n=n, pauli_str=t)
+        elif kind == "sparse":
+            # the same letters in sparse notation with an explicit size
+            items = "".join(f"{ch}_{i + 1}" for i, ch in enumerate(t) if ch != "I") or "I"
+            p = PauliString(pauli_str=f"{items}s{n}")
+        else: return "bad-op"
+        f = PauliString(pauli_str=exp)
+        def look(x):
+            Q = PauliString(pauli_str=q)
+            return (impl_ps.dump(x) + f" idx={guard(lambda: str(x.get_index()))} didx={guard(lambda: str(x.get_diagonal_index()))} "
+                    + guard(lambda: impl_ps.pair_of(x, Q)) + " r:" + guard(lambda: impl_ps.pair_of(Q, x)) + f" eq={x == f} hash={hash(x) == hash(f)}")
+        a, b = look(p), look(f)
+        if a != b:
+            return f"{kind}: string made from text {t!r} with n={n} observed as [{a}], a string built from {exp!r} as [{b}]"
+        # traversals that stop early, then complete ones
+        for x in (p, f):
+            it = iter(x); next(it, None); next(it, None)
+            "X" in [str(c) for c in zip(x, range(1))]
+        la, lb = [str(c) for c in p], [str(c) for c in f]
+        if la != list(exp) or lb != list(exp) or [str(c) for c in p] != list(exp):
+            return f"{kind}: after an unfinished traversal, iterating {exp!r} yields {la} / {lb}"
+        # editing beyond the original text length
+        if n > 0:
+            p[n - 1] = "Y"; f[n - 1] = "Y"
+            if impl_ps.dump(p) != impl_ps.dump(f):
+                return f"{kind}: after p[{n - 1}]='Y' the string made with n={n} is {impl_ps.dump(p)}, the fresh one {impl_ps.dump(f)}"
+        return "ok"
+    except Exception as e:
+        return exc_name(e)
+
+def gen_ctor(rng, k):
+    out = []
+    for _ in range(k):
+        L = rng.randint(0, 5); n = L + rng.randint(0, 4)
+        if n == 0:
+            n = 1
+        out.append(f"ctor {rng.choice(['ctor', 'ctor', 'factory', 'instance', 'sparse'])} {n} {rs(rng, L) or '-'} {rs(rng, n) or '-'}")
+    return out
+
 def shrink_hist(line):
     parts = line[5:].split("|")
     for i in range(1, len(parts)):
@@ -228,6 +277,8 @@ def build_streams(rng, tier):
         Stream("edit-histories", hs, h, oracle_hist, tag=tag, shrink=shrink_hist,
                nontrivial=lambda l, o: l.count("|") >= 2),
         Stream("enumeration", ga, h, oracle_genall),
+        Stream("other-constructors-and-unfinished-traversals", gen_ctor(rng, 3000 if th else 800), ctor_handle,
+               oracle=lambda l, o: None if o == "ok" else o, model=False, tag=lambda l, o: "ctor:" + l.split(" ")[1] + (":ok" if o == "ok" else ":bad")),
     ]
     return sts
 
@@ -256,6 +307,10 @@ def main(tier):
 def replay(path):
     r = json.load(open(path))
     line = r.get("line")
+    if line.startswith("ctor "):
+        out = ctor_handle(line)
+        print("line:", line); print("oracle:", "holds" if out == "ok" else out)
+        return 0 if out == "ok" else 1
     out = impl_ps.handle(line)
     why = (oracle_hist if line.startswith("hist") else oracle_genall)(line, out)
     print("line:", line); print("implementation:", out); print("model:", run_model([line])[0]); print("oracle:", why or "holds")
